@@ -96,6 +96,14 @@ def main():
         problems.append("cannot read first-RAW rule")
     cff = squash(func_body(parse, "_GD_CodeFromFrag"))
     gates["g_nsname"] = int(need(r"_GD_BuildCode\(D,me,p->ns,p->nsl,code,p->pedantic&&p->standards<(\d+),offset\)", cff, "namespace gate of names", 0))
+    ic = squash(func_body(parse, "_GD_InputCode"))
+    m = re.search(r"_GD_BuildCode\(D,me,p->ns,p->nsl,token,\(p->pedantic&&p->standards<=5\)\|\(\(!p->pedantic\|\|p->standards>=(\d+)\)\?GD_CO_REPRZ:0\),NULL\)", ic)
+    if m:
+        reprz = int(m.group(1))
+    elif re.search(r"_GD_BuildCode\(D,me,p->ns,p->nsl,token,p->pedantic&&p->standards<=5,NULL\)", ic):
+        reprz = 0
+    else:
+        problems.append("cannot read _GD_InputCode"); reprz = 0
     ra = squash(func_body(parse, "_GD_ResolveAlias"))
     if re.search(r"elseif\(base==T\)T=NULL;else", ra):
         bounded = False
@@ -162,7 +170,7 @@ def main():
                   "g_protect", "g_reference", "g_version", "g_slash", "g_barth", "g_nsname", "g_nsaffix", "g_fo_base0"]:
             fh.write("  %s := %d;\n" % (k, gates[k]))
         fh.write("  prm_leak_parent := %d; prm_leak_child := %d;\n" % (leak_p, leak_c))
-        fh.write("  prm_alias_bounded := %s; prm_ns_pop := %s; prm_nullns := %s |}.\n" % (b(bounded), b(ns_pop), b(nullns)))
+        fh.write("  prm_alias_bounded := %s; prm_ns_pop := %s; prm_nullns := %s; g_reprz := %d |}.\n" % (b(bounded), b(ns_pop), b(nullns), reprz))
         fh.write("\nDefinition translator_problems : nat := %d%%nat.\n" % len(problems))
     for p in problems:
         print("PROBLEM: " + p)
